@@ -206,7 +206,8 @@ async fn cell<K: Kind>(addr: SocketAddr, set: Arc<CertSet>, topic: String, comp:
         None => pb,
     };
     let mut publisher = pb.open().await.map_err(|e| fail("open-error", &class, format!("publisher open failed: {e}")))?;
-    let items: Vec<K::Item> = (0..n).map(|i| K::item(i, size)).collect();
+    // payload_bytes == 1 stands for "mixed": small items with one 100 KB item in the middle
+    let items: Vec<K::Item> = (0..n).map(|i| K::item(i, if size == 1 { if i == n / 2 { 100_000 } else { 24 } } else { size })).collect();
     for it in &items {
         publisher.send(it.clone()).await.map_err(|e| fail("send-error", &class, format!("publisher.send failed: {e}")))?;
     }
@@ -265,7 +266,7 @@ fn cells(tier: &str) -> Vec<Value> {
                 for b in &batchings {
                     let s = b.map(|x| x.0 as usize).unwrap_or(2);
                     for n in 0..=(2 * s + 1) {
-                        for size in [0usize, 24, 100_000] {
+                        for size in [0usize, 24, 100_000, 1] {
                             if size == 100_000 && n > 4 {
                                 continue;
                             }
@@ -283,6 +284,15 @@ fn cells(tier: &str) -> Vec<Value> {
             for n in 0..=(2 * s + 1) {
                 push(codecs[k % 3], comps[(k / 3) % 6], *b, n, 24, &mut v);
                 k += 1;
+            }
+        }
+        // mixed payload sizes (a large item between small ones) under every batching config
+        let mut k2 = 0usize;
+        for b in &batchings {
+            let s = b.map(|x| x.0 as usize).unwrap_or(2);
+            for n in [s + 2, 2 * s + 1] {
+                push(codecs[k2 % 3], comps[(k2 / 3) % 6], *b, n, 1, &mut v);
+                k2 += 1;
             }
         }
         // every codec x compression pair, unbatched and batched, three payload sizes
@@ -328,7 +338,7 @@ pub async fn run(tier: &str, replaying: bool) -> ! {
     finish(
         rep,
         outs,
-        "every cell of codec {String, Bytes, Bincode struct} x compression {none, gzip, zlib, zstd, lz4, brotli} x batching {off; size 1,2,3,5 x interval 1h (never elapses) / 0 (always elapsed)} x message count 0..=2*size+1 x payload {0, 24 B, 100 KB} in thorough; quick: every batching config x every message count with codec/compression rotating over all 18 pairs, plus every pair x {unbatched, size 2} x three payload sizes. Each cell: real Subscriber (attached via a warm-up barrier), real Publisher sends n items then finish(); oracle: the subscriber yields exactly the sent items, equal, in order, once, nothing else. non-trivial = at least one message",
+        "every cell of codec {String, Bytes, Bincode struct} x compression {none, gzip, zlib, zstd, lz4, brotli} x batching {off; size 1,2,3,5 x interval 1h (never elapses) / 0 (always elapsed)} x message count 0..=2*size+1 x payload {0, 24 B, 100 KB, mixed (one 100 KB item between 24 B items)} in thorough; quick: every batching config x every message count with codec/compression rotating over all 18 pairs, plus mixed payload sizes under every batching config, plus every pair x {unbatched, size 2} x three payload sizes. Each cell: real Subscriber (attached via a warm-up barrier), real Publisher sends n items then finish(); oracle: the subscriber yields exactly the sent items, equal, in order, once, nothing else. non-trivial = at least one message",
         "each cell runs against one shared in-process server on a unique topic with its own client connection",
         json!({}),
         replaying,
